@@ -71,12 +71,33 @@ def gen_xmlns():
             if pat not in rb:
                 missing.append("xml_prefix_is_reserved: shape")
                 break
+    # xml_print_opaq_open: the default namespace of the element, and (repair of F300) the undeclaration for an element in no namespace
+    _, ob = minic.function_source(path, "xml_print_opaq_open")
+    ob = squash(minic.strip_comments(ob))
+    plain = "if(node->name.prefix||node->name.module_ns){xml_print_ns_opaq(pctx,node->format,&node->name,LYXML_PREFIX_DEFAULT);}rc=xml_print_attr(pctx,node);"
+    fixed = ("if(node->name.prefix||node->name.module_ns){xml_print_ns_opaq(pctx,node->format,&node->name,LYXML_PREFIX_DEFAULT);}"
+             "elseif((node->format==LY_VALUE_XML)&&xml_default_ns_in_scope(pctx)){xml_print_ns(pctx,\"\",NULL,0);}rc=xml_print_attr(pctx,node);")
+    undeclare = fixed in ob
+    if not undeclare and plain not in ob:
+        missing.append("xml_print_opaq_open: default namespace of the element of an unknown shape")
+    if "pctx->opaq=node;" not in ob or "pctx->opaq=NULL;" not in ob:
+        missing.append("xml_print_opaq_open: pctx->opaq")
+    if undeclare:
+        if re.search(r"^xml_default_ns_in_scope\(", src, re.M) is None:
+            missing.append("xml_default_ns_in_scope")
+        else:
+            _, db = minic.function_source(path, "xml_default_ns_in_scope")
+            db = squash(minic.strip_comments(db))
+            if "for(i=pctx->ns.count;i>0;--i){if(!pctx->prefix.objs[i-1]){return((constchar*)pctx->ns.objs[i-1])[0]?1:0;}}return0;" not in db:
+                missing.append("xml_default_ns_in_scope: shape")
     out = ["-- GENERATED by tools/extractors/xmlns.py from /repo — do not edit. Regenerated on every check run.", "",
            "namespace LyModel.Generated", "",
            "/-- printer_xml.c, xml_print_ns: a suggested prefix that is already bound is replaced by `prefix<k>` (the do/while loop) -/",
            "def xmlNsNumbered : Bool := %s" % ("true" if numbered else "false"),
            "/-- printer_xml.c: xml_prefix_is_reserved exists and is consulted when a prefix is reused for / suggested by an attribute name -/",
            "def xmlNsReserved : Bool := %s" % ("true" if reserved else "false"),
+           "/-- printer_xml.c, xml_print_opaq_open: `xmlns=\\\"\\\"` is written for an element in no namespace when a default namespace is in scope (F300) -/",
+           "def xmlNsUndeclare : Bool := %s" % ("true" if undeclare else "false"),
            "", "end LyModel.Generated", ""]
     if missing:
         out.insert(1, "-- not recognised in this tree: " + "; ".join(missing))
